@@ -29,7 +29,7 @@ RULE = (
     "tolerance 1e-14), a linearisation configuration (mode auto/direct/adjoint, matrix or linear operator, LU on/off, "
     "linear solver among DEFAULT/LGMRES/GMRES/BICGSTAB/BICG/CGS/GCROT/TFQMR at tolerance 1e-12) and 1-3 successive "
     "requests (non-empty subsets of the inputs and outputs, accumulated with add_differentiated_inputs/outputs on the "
-    "same MDA object), optionally followed by a linearisation at perturbed inputs or with compute_all_jacobians.  Every "
+    "same MDA object), optionally followed by a linearisation at perturbed inputs or of all dependent (input, output) pairs.  Every "
     "returned block must have the shape (output size, input size) and equal the closed-form implicit-function "
     "derivative.  Non-trivial = >=2 strongly coupled disciplines whose coupling outputs have unequal sizes and a "
     "request that is a strict subset of the inputs or outputs; distinct = structural hash of (system, inputs, "
@@ -41,7 +41,7 @@ ASSUMPTIONS = [
     "the linearisation point is the MDA solution at tolerance 1e-14 (NO_SCALING): its distance to the exact solution "
     "changes the Jacobian of the mildly non-linear systems by less than 1e-12",
     "tolerances: |block - closed form| <= 1e-9 (1 + max|closed form|) for DEFAULT / LU, 1e-7 (1 + max) for the named Krylov solvers",
-    "a RuntimeError 'breakdown' raised by a named Krylov solver (BICGSTAB, BICG, CGS, GCROT, TFQMR, GMRES, LGMRES) is "
+    "a RuntimeError 'breakdown' raised, or NaN returned, by a named Krylov solver (BICGSTAB, BICG, CGS, GCROT, TFQMR, GMRES, LGMRES) is "
     "inconclusive for that solver (class 'inconclusive:krylov_breakdown'), CG is not used (needs a symmetric matrix)",
     "LU factorisation is requested with the sparse matrix type only (documented ValueError with linear operators, checked)",
     "MDANewtonRaphson is given all-strongly-coupled systems only (others reach it through MDAChain)",
@@ -64,6 +64,7 @@ def cases(draw):
         st.fixed_dictionaries({
             "inputs": st.lists(st.integers(0, n_in - 1), min_size=1, max_size=n_in, unique=True),
             "outputs": st.lists(st.integers(0, len(out_names) - 1), min_size=1, max_size=min(len(out_names), 4), unique=True),
+            "dependent": st.sampled_from([True, True, True, False]),
         }), min_size=1, max_size=3))
     matrix = draw(st.sampled_from(["matrix", "matrix", "linear_operator"]))
     return {
@@ -75,7 +76,7 @@ def cases(draw):
         "matrix": matrix,
         "lu": draw(st.booleans()),
         "solver": draw(st.sampled_from(LINEAR_SOLVERS)),
-        "final": draw(st.sampled_from(["none", "none", "new_point", "all_jacobians"])),
+        "final": draw(st.sampled_from(["none", "none", "new_point", "all_pairs"])),
         "delta": {v["name"]: [draw(st.sampled_from([-0.5, 0.0, 0.25, 1.0])) for _ in range(v["size"])] for v in system["x"]},
         "perm": draw(st.permutations(list(range(5)))),
         "grammar": draw(st.sampled_from(["SimpleGrammar", "SimpleGrammar", "SimpleGrammar", "JSONGrammar"])),
@@ -158,7 +159,7 @@ def _backward(model: CoupledSystem, req_out) -> set:
 
 
 def upstream_cycle_not_on_path(model: CoupledSystem, req_in: list, req_out: list) -> bool:
-    """Ledger class: a cycle on the differentiation path reads a strong coupling of a cycle that the requested inputs do not reach."""
+    """Ledger class: a cycle on the differentiation path reads a strong coupling of another cycle."""
     succ = model.graph()
     groups = [c for c in model.sccs() if len(c) > 1 or c[0] in succ[c[0]]]
     fwd, bwd = _forward(model, req_in), _backward(model, req_out)
@@ -173,9 +174,7 @@ def upstream_cycle_not_on_path(model: CoupledSystem, req_in: list, req_out: list
             continue
         for h, other in enumerate(groups):
             if h != k and strong[h].intersection(g_in):
-                h_in = {n for i in other for n in model.inputs_of[i]}
-                if not fwd.intersection(h_in):
-                    return True
+                return True
     return False
 
 
@@ -192,7 +191,7 @@ def minimal_couplings_empty(model: CoupledSystem, req_in: list, req_out: list) -
     (every requested input reaching a requested output: the other case is its own class)."""
     if model.state_of:
         return False  # residual names are always part of the assembled system
-    if any(not reachable_outputs(model, i).intersection(req_out) for i in req_in):
+    if has_structurally_zero_row_or_column(model, req_in, req_out):
         return False
     fwd = set(req_in)
     changed = True
@@ -213,6 +212,39 @@ def minimal_couplings_empty(model: CoupledSystem, req_in: list, req_out: list) -
     return not (fwd & bwd).intersection(model.couplings())
 
 
+def has_structurally_zero_row_or_column(model: CoupledSystem, req_in: list, req_out: list) -> bool:
+    """Ledger class: a requested input reaching no requested output, or a requested output reached by no requested input."""
+    reach = {i: reachable_outputs(model, i) for i in req_in}
+    if any(not reach[i].intersection(req_out) for i in req_in):
+        return True
+    return any(all(o not in reach[i] for i in req_in) for o in req_out)
+
+
+class _KrylovBreakdown(Exception):
+    """A named Krylov solver returned NaN / inf (lucky breakdown not reported by SciPy)."""
+
+
+def resolve_request(model: CoupledSystem, req: dict, used_x: list) -> tuple[list, list]:
+    """Names of a drawn request (indices modulo).
+
+    With ``req["dependent"]`` (3 requests out of 4) the request is completed / pruned by construction so that
+    it has no structurally zero row or column (known finding C07-F2): outputs that depend on no design input
+    are dropped, inputs reaching no requested output are replaced by one that does.
+    """
+    ins = [used_x[i % len(used_x)] for i in req["inputs"]]
+    outs = [model.out_names[i % len(model.out_names)] for i in req["outputs"]]
+    if not req.get("dependent", False):
+        return sorted(set(ins)), sorted(set(outs))
+    reach = {x: reachable_outputs(model, x) for x in used_x}
+    dependent = [o for o in model.out_names if any(o in reach[x] for x in used_x)]
+    outs = [o if o in dependent else dependent[k % len(dependent)] for k, o in enumerate(outs)] if dependent else outs
+    ins = [x for x in ins if reach[x].intersection(outs)]
+    for o in outs:
+        if not any(o in reach[x] for x in ins):
+            ins.append(next(x for x in used_x if o in reach[x]))
+    return sorted(set(ins)), sorted(set(outs))
+
+
 def compare(ctx, p, model, tag, jac, expected, in_names, out_names, label):
     tol = 1e-7 if p["solver"] in KRYLOV and not (p["lu"] and p["matrix"] == "matrix") else 1e-9
     ctx.check(hasattr(jac, "keys"), "shape", f"{tag} {label}: linearize returned {type(jac).__name__}")
@@ -226,11 +258,14 @@ def compare(ctx, p, model, tag, jac, expected, in_names, out_names, label):
         for i, blk in row.items():
             if i not in model.x_offset:
                 continue
-            if model.state_of and reads_state_of_other_discipline(model, o) and ctx.known("function_reads_state_variable"):
+            if model.state_of and reads_state_of_other_discipline(model, o) and ctx.known("function_reads_state_variable", count=False):
+                ctx.cls("block_excluded:function_reads_state_variable")
                 continue
             arr = blk.toarray() if hasattr(blk, "toarray") else np.asarray(blk)
             exp = expected[o][i]
             ctx.check(arr.shape == exp.shape, "shape", f"{tag} {label}: d{o}/d{i} has shape {arr.shape}, expected {exp.shape}")
+            if p["solver"] in KRYLOV and not np.all(np.isfinite(arr)) and not (p["lu"] and p["matrix"] == "matrix"):
+                raise _KrylovBreakdown
             ctx.check(bool(np.all(np.isfinite(arr))), "closed_form", f"{tag} {label}: d{o}/d{i} is not finite")
             err = float(np.max(np.abs(arr - exp), initial=0.0))
             bound = tol * (1.0 + float(np.max(np.abs(exp), initial=0.0)))
@@ -273,19 +308,22 @@ def _case_derivatives(p, ctx):
     exp1 = model.total_derivatives(x1, sol1)
     req_in, req_out = [], []
     strict = False
+
+    def excluded_by_known_finding() -> bool:
+        if has_structurally_zero_row_or_column(model, req_in, req_out) and ctx.known("requested_input_without_dependent_output"):
+            return True
+        if minimal_couplings_empty(model, req_in, req_out) and ctx.known("request_without_coupling_on_path"):
+            return True
+        if upstream_cycle_not_on_path(model, req_in, req_out) and ctx.known("upstream_cycle_not_on_path"):
+            return True
+        return state_form_discipline_not_on_path(model, req_in, req_out) and ctx.known("state_form_discipline_not_on_path")
+
     try:
         for k, req in enumerate(p["requests"]):
-            ins = [used_x[i % len(used_x)] for i in req["inputs"]]
-            outs = [model.out_names[i % len(model.out_names)] for i in req["outputs"]]
+            ins, outs = resolve_request(model, req, used_x)
             req_in = sorted(set(req_in) | set(ins))
             req_out = sorted(set(req_out) | set(outs))
-            if any(not reachable_outputs(model, i).intersection(req_out) for i in req_in) and ctx.known("requested_input_without_dependent_output"):
-                return
-            if minimal_couplings_empty(model, req_in, req_out) and ctx.known("request_without_coupling_on_path"):
-                return
-            if upstream_cycle_not_on_path(model, req_in, req_out) and ctx.known("upstream_cycle_not_on_path"):
-                return
-            if state_form_discipline_not_on_path(model, req_in, req_out) and ctx.known("state_form_discipline_not_on_path"):
+            if excluded_by_known_finding():
                 return
             mda.add_differentiated_inputs(ins)
             mda.add_differentiated_outputs(outs)
@@ -308,10 +346,22 @@ def _case_derivatives(p, ctx):
             jac = mda.linearize(x2)
             compare(ctx, p, model, tag, jac, model.total_derivatives(x2, sol2), req_in, req_out, "new point")
             ctx.cls("final:new_point")
-        elif p["final"] == "all_jacobians":
-            jac = mda.linearize(x1, compute_all_jacobians=True)
-            compare(ctx, p, model, tag, jac, exp1, used_x, model.out_names, "compute_all_jacobians")
-            ctx.cls("final:all_jacobians")
+        elif p["final"] == "all_pairs":
+            # every design input that is read x every output depending on a design input
+            reach = {x: reachable_outputs(model, x) for x in used_x}
+            req_out = sorted(set(req_out) | {o for o in model.out_names if any(o in reach[x] for x in used_x)})
+            req_in = sorted(set(req_in) | {x for x in used_x if reach[x]})
+            if excluded_by_known_finding():
+                return
+            mda.add_differentiated_inputs(req_in)
+            mda.add_differentiated_outputs(req_out)
+            jac = mda.linearize(x1)
+            compare(ctx, p, model, tag, jac, exp1, req_in, req_out, "all pairs")
+            ctx.cls("final:all_pairs")
+    except _KrylovBreakdown:
+        ctx.cls("inconclusive:krylov_breakdown")
+        ctx.note("NaN returned by a named Krylov solver (unreported breakdown) is counted as inconclusive for that solver")
+        return
     except RuntimeError as exc:
         if p["solver"] in KRYLOV and "breakdown" in str(exc):
             ctx.cls("inconclusive:krylov_breakdown")
